@@ -598,8 +598,42 @@ func c20GenerateSchema(r *Run, schemaJSON map[string]interface{}, enumTypes, ext
 	if b, err := os.ReadFile(filepath.Join(repo, "go.sum")); err == nil {
 		os.WriteFile(filepath.Join(dir, "go.sum"), b, 0o644)
 	}
+	// the files are written by the generator itself, as modelgen's main does, over a generation of the same
+	// schema with the other options (a user who switches a flag and runs go generate again): what ends up on
+	// disk must be what the generator formats for these options
+	writeAll := func(enums, ext bool) (err error) {
+		defer func() {
+			if p := recover(); p != nil {
+				err = fmt.Errorf("panic: %v", p)
+			}
+		}()
+		for name, table := range schema.Tables {
+			tt := table
+			data := modelgen.GetTableTemplateData("gen", name, &tt)
+			data.WithEnumTypes(enums)
+			data.WithExtendedGen(ext)
+			if err := gen.Generate(filepath.Join(dir, "gen", modelgen.FileName(name)), modelgen.NewTableTemplate(), data); err != nil {
+				return err
+			}
+		}
+		return gen.Generate(filepath.Join(dir, "gen", "model.go"), modelgen.NewDBTemplate(), modelgen.GetDBTemplateData("gen", schema))
+	}
+	if known == "" {
+		if err := writeAll(!enumTypes, !extended); err != nil {
+			fail(err.Error(), "files written", "the generator could not write the package (other options)")
+			return
+		}
+	}
+	if err := writeAll(enumTypes, extended); err != nil {
+		fail(err.Error(), "files written", "the generator could not write the package")
+		return
+	}
 	for fn, src := range files {
-		os.WriteFile(filepath.Join(dir, "gen", fn), src, 0o644)
+		onDisk, err := os.ReadFile(filepath.Join(dir, "gen", fn))
+		if err != nil || !bytes.Equal(onDisk, src) {
+			fail(fmt.Sprintf("%s: %d bytes on disk, %d bytes formatted (%v)", fn, len(onDisk), len(src), err), "identical", "the file the generator writes over an earlier generation is not the file it formats")
+			return
+		}
 	}
 	os.WriteFile(filepath.Join(dir, "cmd", "main.go"), []byte(c20CheckProgram), 0o644)
 	cmd := exec.Command("go", "run", "./cmd")
